@@ -179,7 +179,17 @@ def deadline_stage(ctx, V, exe, n):
         kind = rng.choice(["refuse-hup", "refuse-soerr", "syncfail"])
         wait = rng.choice([200000, 1200000, 3500000, 5100000, 8000000, 16500000, rng.randrange(100000, 30000000)])
         S = [("raw", ["PLAN " + kind] * 120), ("connect",), ("wait", 0), ("sleep", wait), ("send", 0, rng.choice([b"on n1\r\n", b"off n1\r\n"])), ("wait", 0)]
-        jobs.append((i, T, pmcheck.Scenario(cfg, S, dict(style="c04-deadline", kind=kind, wait=wait, max_rounds=400), env={"PMSIM_PLAN": kind})))
+        if i % 3 == 2:
+            # ... while a SECOND device, configured after the first, sits in a `delay` longer than the first one's time-out for another
+            # client: the poll time-out is the minimum over all pending timers, whichever device registers last
+            D = T + rng.choice([1.5, 4.0, 9.0])
+            d1 = pmgen.Dev("d1", ["login", "on", "off"], hardwired=["p1"], timeout=D + 5.0, ping=0)
+            d1.transport = "pipe"
+            d1.bodies = {"on": 'send "ON %%s\\n"\n\t\tdelay %g\n\t\texpect "done\\n"' % D, "off": 'send "OFF %%s\\n"\n\t\tdelay %g\n\t\texpect "done\\n"' % D}
+            cfg.devs.append(d1); cfg.node_lines.append(("n2", "d1", "p1")); cfg.truth["d1"] = {"p1": "n2"}
+            S = [("raw", ["PLAN " + kind] * 120), ("connect",), ("connect",), ("wait", 0), ("wait", 1), ("sleep", wait),
+                 ("send", 1, b"on n2\r\n"), ("send", 0, rng.choice([b"on n1\r\n", b"off n1\r\n"])), ("wait", 0), ("wait", 1)]
+        jobs.append((i, T, pmcheck.Scenario(cfg, S, dict(style="c04-deadline", kind=kind, wait=wait, max_rounds=400, ncli=2 if i % 3 == 2 else 1), env={"PMSIM_PLAN": kind})))
 
     def one(j):
         i, T, sc = j
@@ -265,10 +275,16 @@ def run(ctx, V):
     rsim(ctx, V, exe, int(os.environ.get('C04_N', 0)) or 300 if ctx.tier == "quick" else 6000, styles=("mixed", "faults", "healthy"), prefix="c04")
     deadline_stage(ctx, V, exe, 40 if ctx.tier == "quick" else 1200)
     halfclose_stage(ctx, V, exe, 24 if ctx.tier == "quick" else 600)
+    if ctx.tier == "quick":
+        # (the replayed 1 MiB histories are thorough-tier only - the model side takes minutes; on the implementation alone they take seconds:
+        #  the other session is served, the non-reader later gets the newest megabyte incl. the whole reply to its last request)
+        ov = [gen_overflow(ctx.rng, "out")]
+        pmcheck.run_batch(ctx, V, exe, ov, ["alive", "wedge", "nonreader"], "c04ov")
+        V.count("non-reader-over-1MiB", len(ov))
     # the 1 MiB client buffers (overwrite of the oldest bytes): replayed through the model like every other run
     if ctx.tier != "quick":       # ~3 minutes of model time per history (a million-element list per pass): thorough tier only
         os.environ.setdefault("PMREPLAY_TIMEOUT", "2400"); pmreplay.MODEL_TIMEOUT = int(os.environ["PMREPLAY_TIMEOUT"])
-        rsim(ctx, V, exe, 4, styles=("out", "in"), prefix="c04over", monitors=("alive", "wedge"), gen=gen_overflow)
+        rsim(ctx, V, exe, 4, styles=("out", "in"), prefix="c04over", monitors=("alive", "wedge", "nonreader"), gen=gen_overflow)
 
 
 def replay(ctx, V, path):
